@@ -135,6 +135,44 @@ proof fn lemma_record_never_incomplete<'a>(i: &'a [u8], hdr: TlsRecordHeader, r:
     else if t == 0x16 { lemma_repeat1_never_incomplete(spec_msg_handshake_fn(), i, r); }
 }
 
+// C16: many1(complete(p)) "fails if and only if the very first record does not parse", and otherwise returns Ok with
+// the remainder standing at the first record that fails or is incomplete - for a record parser p that consumes input on
+// success (a TLS/DTLS record is at least a header) and never answers Failure (nothing in this crate's parsers does).
+proof fn lemma_loop_total<'a, O>(p: spec_fn(&'a [u8]) -> IResult<&'a [u8], O>, i: &'a [u8], acc: Seq<O>, r: IResult<&'a [u8], Vec<O>>)
+    requires
+        forall|j: &'a [u8]| (#[trigger] p(j)) is Ok ==> p(j)->Ok_0.0@.len() < j@.len(),
+        forall|j: &'a [u8]| !((#[trigger] p(j)) is Err && p(j)->Err_0 is Failure),
+        loop_from(completed(p), i, acc, ErrorKind::Many1, r),
+    ensures
+        r is Ok,
+        r->Ok_0.1@.len() >= acc.len(),
+        // the remainder stands where the single-record parser first does not succeed
+        exists|j: &'a [u8]| j@ == r->Ok_0.0@ && !(#[trigger] p(j) is Ok),
+    decreases i@.len()
+{
+    let q = completed(p);
+    match q(i) {
+        Ok((i1, o)) => { assert(q(i) == p(i)); lemma_loop_total(p, i1, acc.push(o), r); }
+        Err(_) => { assert(i@ == r->Ok_0.0@ && !(p(i) is Ok)); }
+    }
+}
+
+proof fn lemma_many1_fails_iff_first<'a, O>(p: spec_fn(&'a [u8]) -> IResult<&'a [u8], O>, i: &'a [u8], r: IResult<&'a [u8], Vec<O>>)
+    requires
+        forall|j: &'a [u8]| (#[trigger] p(j)) is Ok ==> p(j)->Ok_0.0@.len() < j@.len(),
+        forall|j: &'a [u8]| !((#[trigger] p(j)) is Err && p(j)->Err_0 is Failure),
+        repeat1(p, i, r),
+    ensures
+        r is Err <==> !(p(i) is Ok),
+        r is Ok ==> r->Ok_0.1@.len() >= 1 && exists|j: &'a [u8]| j@ == r->Ok_0.0@ && !(#[trigger] p(j) is Ok),
+{
+    let q = completed(p);
+    match q(i) {
+        Ok((i1, o)) => { assert(q(i) == p(i)); lemma_loop_total(p, i1, seq![o], r); }
+        Err(_) => { }
+    }
+}
+
 // C03: an empty ChangeCipherSpec / alert payload is rejected; a malformed or cut-short first message
 // never yields a value
 proof fn lemma_first_message_decides<'a>(i: &'a [u8], hdr: TlsRecordHeader, r: IResult<&'a [u8], Vec<TlsMessage<'a>>>)
